@@ -437,3 +437,35 @@ func (w *World) Locked(f func()) {
 	defer w.mu.Unlock()
 	f()
 }
+
+// ExternalRawTx puts an opaque (real, non-token) transaction with n outputs
+// into the mempool of a simulated chain so that the watcher contract can
+// report it. Outputs carry no script information.
+func (w *World) ExternalRawTx(chain, txid, txHex string, nOuts int, owner string) error {
+	w.mu.Lock()
+	defer w.mu.Unlock()
+	tx := &Tx{ID: txid, Hex: txHex, Version: 2, Ins: []In{{Path: "wallet"}}, Owner: owner, Kind: "opening"}
+	for i := 0; i < nOuts; i++ {
+		tx.Outs = append(tx.Outs, Out{Script: "real", Value: 0})
+	}
+	return w.Chains[chain].Accept(tx)
+}
+
+// MarkSpent records that txid:vout was spent by spender (a real transaction broadcast by a node's wallet).
+func (w *World) MarkSpent(chain, txid string, vout uint32, spender, owner string) error {
+	w.mu.Lock()
+	defer w.mu.Unlock()
+	c := w.Chains[chain]
+	prev := c.Txs[txid]
+	if prev == nil || int(vout) >= len(prev.Outs) {
+		return fmt.Errorf("unknown outpoint %s:%d", txid, vout)
+	}
+	if prev.Outs[vout].SpentBy != "" {
+		return fmt.Errorf("outpoint %s:%d already spent", txid, vout)
+	}
+	prev.Outs[vout].SpentBy = spender
+	c.Txs[spender] = &Tx{ID: spender, Owner: owner, Kind: "spend", Version: 2}
+	c.Mempool = append(c.Mempool, spender)
+	c.Order = append(c.Order, spender)
+	return nil
+}
